@@ -275,10 +275,13 @@ func c16(run *ev.Run, tier string) {
 	base := func() *nfpm.Config {
 		return &nfpm.Config{Info: nfpm.Info{Name: "envpkg", Arch: "amd64", Version: "1.0.0", Description: "d", Maintainer: "m", Platform: "linux"}}
 	}
-	for ei := 0; ei < nenv; ei++ {
+	for ei := 0; ei <= nenv; ei++ { // the last environment is the fixed "value contains '$'" one
 		r := rng.New(uint64(run.Seed)).Fork(uint64(180000 + ei))
 		vname := fmt.Sprintf("VERIF_%c%c_%d", 'A'+r.Intn(26), 'A'+r.Intn(26), r.Intn(1000))
 		vval := rng.Pick(r, []string{"value", "with space", "ünï", "a$b", "x=y", "/abs/path", "v1.2.3"})
+		if ei == nenv {
+			vval = "cost$center ${brace}" // a substituted value is data: it must not be expanded again
+		}
 		env := map[string]string{vname: vval, "VERIF_EMPTY": "", "VERIF_BLANK": "   ", "VERIF_PADDED": "  padded  "}
 		type shape struct {
 			name, val string
